@@ -75,3 +75,27 @@ Proof.
   exact (q_bin_same_base (StF prec emax Hprec Hmax lib) f ac U d a b (StF_refl prec emax Hprec Hmax lib U HU) (StF_retract prec emax Hprec Hmax lib)).
 Qed.
 End S.
+
+(* ---- facts about the source as it is now (Gen/ConvSrc.v, regenerated from src/system.rs on every run) ---- *)
+From Coq Require Import String.
+From UomV Require Import Model.ConvSrc Gen.ConvSrc Spec.ConvTie.
+(* struct Quantity is two PhantomData fields and the value under #[repr(transparent)]: by Rust's layout rules it has
+   exactly the size, alignment and call ABI of the storage type (repr(C) or no repr would not guarantee the ABI) *)
+Theorem c04_quantity_struct_is_transparent :
+  struct_layout src_quantity_struct = {| lv_size_align_of_field := true; lv_abi := AbiAsField |}
+  /\ map snd (ss_fields src_quantity_struct) = [FPhantom; FPhantom; FStorage].
+Proof. exact quantity_struct_is_transparent. Qed.
+Theorem c04_layout_rule_sensitivity :
+  lv_abi (struct_layout {| ss_attrs := ["repr(C)"%string]; ss_fields := ss_fields src_quantity_struct |}) = AbiAggregate
+  /\ lv_abi (struct_layout {| ss_attrs := []; ss_fields := ss_fields src_quantity_struct |}) = AbiUnspecified.
+Proof. split; vm_compute; reflexivity. Qed.
+(* the three conversion functions are #[inline(always)] *)
+Theorem c04_conversions_inline_always :
+  has_attr "inline(always)" (cs_attrs src_to_base) && has_attr "inline(always)" (cs_attrs src_from_base)
+  && has_attr "inline(always)" (rs_attrs src_change_base) = true.
+Proof. exact conversions_are_inline_always. Qed.
+(* the bodies the theorems above speak about are the source's *)
+Theorem c04_conversion_bodies_are_the_source :
+  (forall (T : Type) (F : CF T) U d coef cons v, eval_conv F src_to_base (base_factor F U d) coef cons v = Some (to_base F U d coef cons v))
+  /\ (forall (T : Type) (F : CF T) U d coef cons v, eval_conv F src_from_base (base_factor F U d) coef cons v = Some (from_base F U d coef cons v)).
+Proof. split; [exact (proj2 to_base_is_the_source)|exact (proj2 from_base_is_the_source)]. Qed.
